@@ -171,6 +171,7 @@ def kernel_table(rep, F, rule='R-TABLE'):
             continue
         n += 1
         probs = []
+        undec = []
         for atoms, out in paths:
             nf = TB.show(TB.strip_refs(out))
             if nf.startswith("('panic'"):
@@ -197,10 +198,12 @@ def kernel_table(rep, F, rule='R-TABLE'):
                 if extra:
                     probs.append('general path taken under an unrecognised test %s' % extra[0][:60])
                 continue
-            probs.append('unrecognised outcome %s' % nf[:90])
+            undec.append('unrecognised outcome %s' % nf[:90])
         key = fn.key + ':kernel-table'
         if probs:
             rep.violation(rule, key, probs[0], fn.where())
+        elif undec:
+            rep.undecided(rule, key, undec[0], fn.where())
         else:
             rep.ok(rule, key, '%d paths: zero/one shortcuts return x, equal signed digits give 1 at the scale difference, otherwise impl_division(x.int_val, &y.int_val, sx - sy, DEFAULT_PRECISION)' % len(paths), fn.where())
     return n
